@@ -495,16 +495,7 @@ impl Cluster {
         let seqs = q("SELECT site_id, db_version, start_seq, end_seq, last_seq FROM __corro_seq_bookkeeping");
         let buf = q("SELECT site_id, db_version, seq FROM __corro_buffered_changes");
         let dbv = q("SELECT site_id, db_version FROM crsql_db_versions");
-        let sites = q("SELECT site_id FROM crsql_site_id WHERE ordinal > 0");
-        format!(
-            "mem[{}] gaps[{}] seqs[{}] buf[{}] dbv[{}] sites[{}]",
-            mem.join(" "),
-            gaps.join(","),
-            seqs.join(","),
-            buf.join(","),
-            dbv.join(","),
-            sites.join(",")
-        )
+        format!("mem[{}] gaps[{}] seqs[{}] buf[{}] dbv[{}]", mem.join(" "), gaps.join(","), seqs.join(","), buf.join(","), dbv.join(","))
     }
 
     pub fn kill(&mut self, n: usize) -> String {
